@@ -19,7 +19,7 @@ func init() {
 			"IsInvalid gate on its false edge or is the freshly loaded replacement made on the true edge; IsInvalid/IsKeyInvalid consult Policy.ExpireKeyAfter and the revoked flag; " +
 			"(loader-rejects-invalid) a key built from a LoadLatest record is used only under !isEnvelopeInvalid(record) and, for an IK, only under !IsKeyInvalid(parent SK); " +
 			"isEnvelopeInvalid is a disjunction containing both expiry and the Revoked flag; (new-keys-stamped-now) generated keys are stamped from time.Now() (truncation only); " +
-			"(merge-identity, shared with C05) a reloaded key replaces the cached one unless it is the same key version. Wall-clock behaviour is not decided.",
+			"(merge-identity, shared with C05) a reloaded key replaces the cached one unless it is the same key version; loadedAt is written only by the entry constructor and by load() after its loader call. Wall-clock behaviour is not decided.",
 		NotDecided:  []string{"wall-clock timelines, long-session behaviour", "IsKeyExpired's arithmetic direction (pinned by unit tests)", "the duplicate-fallback returns after a refused store (property is conditional on 'metastore accepts writes')"},
 		Assumptions: []string{"Metastore.LoadLatest returns the newest record (C13)", "time.Now is the process clock"},
 		Tech:        "static analysis: guarded-by-condition (dominating branch facts) on SSA, boolean-disjunct structure, value provenance",
